@@ -18,10 +18,34 @@ def sched(fn, T, **kw):
     return d
 
 CHECKS = {
-    "C03": {
-        "explanation": "Sequential symbolic execution of DefaultCleaner for every size >= 0 and every slice of <= 6 offsets over all 64-bit ints.",
-        "quick": [seq("Harness_C03_default_cleaner")],
+    "C01": {
+        "explanation": "Inductive steps: Put, Get (synchronous paths) and NewConsumer executed symbolically from an arbitrary valid Buffer state (<= 4 retained values, symbolic 62-bit offset, <= 2 consumers with symbolic committed offsets and deltas) refine one step of the FIFO specification.",
+        "quick": [seq("Harness_C01_get_step"), seq("Harness_C01_put_step"), seq("Harness_C01_put_cancelled"), seq("Harness_C01_newconsumer_step")],
         "thorough": [],
-        "assumptions": ["at most 6 consumer offsets"],
+        "assumptions": ["representation invariant of verifArbitraryBuffer (harness/ac_buffer_support.go)", "absolute offsets below 2^62"],
+    },
+    "C02": {
+        "explanation": "Commit/Rollback steps from arbitrary states, rollback replay windows of <= 3 reads, package Range with a callback that stops/panics/forces a Commit failure at a symbolic index, Buffer.Range over <= 4 values.",
+        "quick": [seq("Harness_C02_commit_rollback_step"), seq("Harness_C02_rollback_replays"), seq("Harness_C02_range_pkg"), seq("Harness_C02_buffer_range")],
+        "thorough": [],
+        "assumptions": ["representation invariant of verifArbitraryBuffer"],
+    },
+    "C03": {
+        "explanation": "DefaultCleaner for every size >= 0 and <= 6 offsets over all 64-bit ints; FixedBufferCleaner for all 64-bit max/target/size; cleanupLogic from arbitrary states under the default, fixed and an arbitrary cleaner; Slice/Size/Diff observers.",
+        "quick": [seq("Harness_C03_default_cleaner"), seq("Harness_C03_cleanup_default"), seq("Harness_C03_cleanup_arbitrary"), seq("Harness_C03_fixed_cleaner"), seq("Harness_C03_fixed_step"), seq("Harness_C03_observers")],
+        "thorough": [],
+        "assumptions": ["at most 6 consumer offsets for the pure cleaner, <= 2 consumers and <= 4 values for cleanupLogic"],
+    },
+    "C08": {
+        "explanation": "ChanCaster.Add for every valid packed word and every 64-bit delta (idle), negative deltas >= -3 during a send, every poisoned word; Send || 2 receivers under every interleaving (symbolic scheduler, T=24).",
+        "quick": [seq("Harness_C08_add_idle"), seq("Harness_C08_add_sending"), seq("Harness_C08_poisoned"), sched("Harness_C08_caster_race", 24)],
+        "thorough": [],
+        "assumptions": ["negative Add during a send is unrolled for |delta| <= 3"],
+    },
+    "C13": {
+        "explanation": "Channel.Get/Commit/Rollback/Buffer steps from an arbitrary valid state (pending buffer <= 4, rollback <= len, source holding <= 3 values), a 6-operation symbolic history against a reference model, TryRecv on a closed source.",
+        "quick": [seq("Harness_C13_get_step"), seq("Harness_C13_commit_rollback_step"), seq("Harness_C13_closed_source")],
+        "thorough": [seq("Harness_C13_history", timeout_ms=300000)],
+        "assumptions": ["reflect.Value.TryRecv/Interface are contract stubs", "polling path (nothing available) is outside the sequential steps"],
     },
 }
